@@ -471,6 +471,8 @@ def _remap_value(ctx, an: Anchors, init: FuncInfo, rd: ReachingDefs, rec_calls: 
                             stale.append(dn)
                     rep.check("C14.R4", not stale, init, stale[0].ast if stale else rcall, "the child's default resource name is (re)computed in every iteration of the child loop", f"`{passed.id}` can reach the child with a value from outside the iteration (`{ast.unparse(stale[0].ast)[:60] if stale else ''}`): after a `kind/name` sibling every later plain-alias sibling inherits that sibling's name instead of 'default'")
             rep.check("C14.R4", alias_v in cl.names or any(alias_v in names_in(e) for e in cl.exprs), init, good, "the suffix is taken from the alias", "the suffix is not taken from the alias")
+        elif not (alias_v in cl.names or any(alias_v in names_in(e) for e in cl.exprs)):
+            rep.violate("C14.R4", init, rcall, f"the default resource name passed to the child (`{ast.unparse(passed)}`) does not depend on the alias at all: an alias `kind/name` no longer makes `name` the child's default resource name")
         else:
             rep.unrecognised("C14.R4", init, rcall, "cannot recognise how the child's default resource name is derived from the alias")
 
